@@ -1,7 +1,7 @@
 (* C11 -- overlay disk state matches the live view across restart; copy-up preserves files.
    Only statements, closed by [exact]; proofs live in Proofs/Overlay*.v. *)
 From Coq Require Import List String NArith Bool.
-From FB Require Import Model.Overlay Proofs.OverlayInv Proofs.OverlayRestart.
+From FB Require Import Model.Overlay Proofs.OverlayInv Proofs.OverlayScan Proofs.OverlayRestart Proofs.OverlayCopyUp.
 Import ListNotations.
 Local Open Scope string_scope.
 Local Open Scope N_scope.
@@ -23,6 +23,61 @@ Theorem C11_witness_unlink_shadowing_file :
   ser_opt (view (load_all (restart s))) = "d1ed(c=f1a4:6c,)".
 Proof. exact witness_unlink. Qed.
 
+(* What a restarted instance shows is exactly the overlayfs union of the layer directories as they
+   are on disk, in EVERY state: restart equivalence therefore fails exactly where the live cache
+   disagrees with the union of the disk state.  Outside the two known classes that is stated as
+   Definition C11_partial_statement (Proofs/OverlayRestart.v) and NOT proved. *)
+Theorem C11_restart_shows_union : forall s, Forall layer_ok (all_layers (upper s) (lowers s)) ->
+  view (load_all (restart s)) = merge (all_layers (upper s) (lowers s)).
+Proof. exact restart_shows_union. Qed.
+
+(* Copy-up preserves what it copies (under the cache invariant of C10, for a node whose first
+   backing inode is in a lower layer):  regular file -> same permission bits (07777) and content, ... *)
+Theorem C11_copy_up_preserves_file : forall hu s p n lr rest i m d x s',
+  Inv hu s -> nget p (root s) = Some n -> in_upper n = false ->
+  n_reals n = lr :: rest -> r_layer lr <> 0%nat -> real_tree s lr = Some (File i m d x) ->
+  copy_regfile_up p s = (Ok tt, s') ->
+  forall n', nget p (root s') = Some n' ->
+  exists r' i', n_reals n' = [r'] /\ r_upper r' = true /\
+                real_tree s' r' = Some (File i' (N.land m 4095) d []).
+Proof. exact copy_regfile_up_preserves. Qed.
+(* ... symbolic link -> same target, ... *)
+Theorem C11_copy_up_preserves_symlink : forall hu s p n lr rest tg s',
+  Inv hu s -> nget p (root s) = Some n -> in_upper n = false ->
+  n_reals n = lr :: rest -> r_layer lr <> 0%nat -> real_tree s lr = Some (Lnk tg) ->
+  copy_symlink_up p s = (Ok tt, s') ->
+  forall n', nget p (root s') = Some n' ->
+  exists r', n_reals n' = [r'] /\ r_upper r' = true /\ real_tree s' r' = Some (Lnk tg).
+Proof. exact copy_symlink_up_preserves. Qed.
+(* ... directory (and each missing ancestor, created by the recursive call of the same function)
+   -> created with the mode of its lower instance (mkdirat keeps 01777) and kept merged with it. *)
+Theorem C11_copy_up_preserves_dir : forall hu fuel s p n m x ch s',
+  Inv hu s -> nget p (root s) = Some n -> in_upper n = false ->
+  node_stat s n = Some (Dir m x ch) ->
+  create_upper_dir fuel p s = (Ok tt, s') ->
+  forall n', nget p (root s') = Some n' ->
+  exists r' rs', n_reals n' = r' :: rs' /\ r_upper r' = true /\
+                 real_tree s' r' = Some (Dir (N.land m 1023) [] []).
+Proof. exact create_upper_dir_preserves. Qed.
+
+(* non-vacuity of the copy-up hypotheses: a lower-only file two directories deep is copied up *)
+Example C11_copy_up_nonvacuous :
+  let l := Dir 493 [] [("a", Dir 448 [] [("f", File 7 416 [1; 2; 3] [])])] in
+  let s := load_all (fresh (Some (Dir 493 [] [])) [l] 1000) in
+  Inv true s /\
+  (exists n lr, nget ["a"; "f"] (root s) = Some n /\ in_upper n = false /\ n_reals n = [lr] /\
+                r_layer lr = 1%nat /\ real_tree s lr = Some (File 7 416 [1; 2; 3] [])) /\
+  fst (copy_regfile_up ["a"; "f"] s) = Ok tt /\
+  upper (snd (copy_regfile_up ["a"; "f"] s)) = Some (Dir 493 [] [("a", Dir 448 [] [("f", File 1000 416 [1; 2; 3] [])])]).
+Proof.
+  cbv zeta. split; [apply (proj1 (load_all_inv true _ (fresh_inv (Some _) _ _)))|].
+  split; [eexists; eexists; vm_compute; repeat split|]. vm_compute. split; reflexivity.
+Qed.
+
 Print Assumptions C11_refuted.
 Print Assumptions C11_witness_mkdir_over_whiteout.
 Print Assumptions C11_witness_unlink_shadowing_file.
+Print Assumptions C11_restart_shows_union.
+Print Assumptions C11_copy_up_preserves_file.
+Print Assumptions C11_copy_up_preserves_symlink.
+Print Assumptions C11_copy_up_preserves_dir.
